@@ -169,4 +169,13 @@ BLOCK_TYPES = {
 FORMATS = {
     "Data3D": {1: "byTrack", 2: "byTrackWithoutLinks", 3: "byFrame", 4: "byFrameWithoutLinks"},
     "CalibrationDataBlock": {1: "Seelab1", 2: "BTS"},
+    # the codes below are those the jump table of the BTS capture records for the layouts the library implements
+    # (plus the BTS constant names kept in the source comments: TDF_DATAPLAT_FORMAT_BYTRACK_ISS = 1, TDF_DATA2D_FORMAT_PCK = 2, ...)
+    "EMG": {1: "byTrack", 2: "byFrame"},
+    "ForceTorque3D": {1: "byTrack", 2: "byFrame"},
+    "ForcePlatformsDataBlock": {1: "byTrackISSFormat", 2: "byFrameISSFormat"},
+    "ForcePlatformsCalibrationDataBlock": {1: "ISSFormat", 2: "GRPFormat"},
+    "Data2D": {1: "RTSFormat", 2: "PCKFormat", 3: "SYNCFormat"},
+    "OpticalSetupBlock": {1: "basicFormat"},
+    "TemporalEventsData": {1: "standard"},
 }
